@@ -100,15 +100,25 @@ def reference_objective(S, alpha):
 
 
 def solver_succeeds(S, alpha):
-  """can scikit-learn's graphical lasso (defaults, as SDML calls it) produce a finite SPD matrix for this input?"""
+  """can scikit-learn's graphical lasso (defaults, as SDML calls it) produce a finite SPD matrix for this input?
+  Both the public entry point and the private one started from S + 1e-10 I (what SDML passes) must succeed."""
   from sklearn.covariance import graphical_lasso
+  runs = [lambda: graphical_lasso(S, alpha=alpha)[1]]
+  try:
+    from sklearn.covariance._graph_lasso import _graphical_lasso
+    runs.append(lambda: _graphical_lasso(S, alpha=alpha, cov_init=S + 1e-10 * np.eye(len(S)))[1])
+  except ImportError:
+    pass
   with warnings.catch_warnings():
     warnings.simplefilter('ignore')
-    try:
-      _, P = graphical_lasso(S, alpha=alpha)[:2]
-    except Exception:
-      return False
-  return bool(np.isfinite(P).all() and np.linalg.eigvalsh((P + P.T) / 2).min() > 0)
+    for r in runs:
+      try:
+        P = r()
+      except Exception:
+        return False
+      if not (np.isfinite(P).all() and np.linalg.eigvalsh((P + P.T) / 2).min() > 0):
+        return False
+  return True
 
 
 # ---------------------------------------------------------------------------------------------------- instances
